@@ -91,6 +91,7 @@ class Exec(ExprMixin, CallMixin, BuiltinMixin, StmtMixin, ExecBase):
         entry_env = dict(st.env)
         cx = Cx(mod, cls=ci, fn=c.qn, contract=c, pre=pre, acc=[], fn_node=node if kind != "module" else None,
                 self_val=env.get("self"))
+        cx.module_level = (kind == "module")
         res = self.exec_block(body, st, cx)
         npaths = 0
         for s, oc in res:
